@@ -15,6 +15,53 @@ def mapper_family(rep):
     return "stack" if rep == "stack" else "create_node"
 
 
+def redeclared_field_type(F, seed):
+    """A field's declared TYPE is changed on a class that was already used (Cls.__init__.__annotations__[f] = NewType, as the
+    repository's examples do) and the grammar is extracted again: programs of the new grammar must hold values of the NEW type."""
+    import dataclasses as _dcs
+    from abc import ABC as _ABC
+    from geneticengine.grammar.grammar import extract_grammar as _eg
+    from geneticengine.random.sources import NativeRandomSource as _NRS
+    from geneticengine.representations.tree.initializations import MaxDepthDecider as _MD
+    from geneticengine.representations.tree.treebased import TreeBasedRepresentation as _TR
+    from geneticengine.representations.grammatical_evolution.ge import GrammaticalEvolutionRepresentation as _GE
+    from geneticengine.representations.grammatical_evolution.structured_ge import StructuredGrammaticalEvolutionRepresentation as _SGE
+
+    NumT = type("NumT", (_ABC,), {"__module__": __name__})
+    BoolT = type("BoolT", (_ABC,), {"__module__": __name__})
+    LitT = _dcs.make_dataclass("LitT", [("v", int)], bases=(NumT,))
+    TrueT = _dcs.make_dataclass("TrueT", [], bases=(BoolT,))
+    NotT = _dcs.make_dataclass("NotT", [("b", BoolT)], bases=(BoolT,))
+    HolderT = _dcs.make_dataclass("HolderT", [("x", BoolT), ("y", NumT)])
+    for c_ in (LitT, TrueT, NotT, HolderT):
+        c_.__module__ = __name__
+    n = 0
+
+    def one_round(sd, want, tag):
+        nonlocal n
+        g = _eg([LitT, TrueT, NotT], HolderT)
+        r = _NRS(sd)
+        dec = _MD(r, g, 4)
+        progs = []
+        tree = _TR(g, dec)
+        progs += [("tree create", tree.create_genotype(r)) for _ in range(8)]
+        for nm, rep in (("GE mapping", _GE(g, dec, gene_length=32)), ("SGE mapping", _SGE(g, dec, gene_length=16))):
+            progs += [(nm, rep.genotype_to_phenotype(rep.create_genotype(r))) for _ in range(5)]
+        for how, p_ in progs:
+            n += 1
+            if not isinstance(p_, HolderT) or not isinstance(p_.x, want) or not isinstance(p_.y, NumT):
+                F.add("redeclaration:field-holds-the-previously-declared-type", f"{tag}, {how}: {show(p_, 80)} -- field x is declared {want.__name__}", size=1)
+                return
+
+    try:
+        one_round(seed, BoolT, "first declaration (x: BoolT)")
+        HolderT.__init__.__annotations__["x"] = NumT
+        one_round(seed + 1, NumT, "after re-declaring x: NumT and extracting the grammar again")
+    except Exception as ex:  # noqa
+        F.add("redeclaration:exception", f"re-declared field type scenario raised {type(ex).__name__}: {str(ex)[:100]}", size=1)
+    return n
+
+
 def run(tier: str, seed: int) -> dict:
     thorough = tier == "thorough"
     budget = Budget(420 if thorough else 33)
@@ -67,12 +114,13 @@ def run(tier: str, seed: int) -> dict:
                 f"{c.where()}: program {show(p, 90)} is not a well-typed {start.__name__}: at {path} {kind} ({detail})",
                 size=c.size + count_nodes(p),
             )
+    evaluations += redeclared_field_type(F, seed) or 0
     n_ex = sum(1 for x in cells if x[4])
     rule = (
         f"{len(fam)} family grammars x 8 representations/deciders x max_depth in [reported minimum, +{extra_depths - 1}]: "
         f"all draw outcomes of creation up to {ex_runs} runs per cell ({n_ex}/{len(cells)} cells exhausted; wide ranges at boundaries+midpoint), "
         f"{seeds} seeds x (2 creations + 3 mutate/crossover steps) per cell, all GE genotypes of length 3 over a small gene alphabet; "
-        f"oracle = independent well-typedness checker; allowed failures: GeneticEngineError, SynthesisException"
+        f"oracle = independent well-typedness checker; allowed failures: GeneticEngineError, SynthesisException; plus a field type re-declared on a used class and the grammar re-extracted (tree / GE / SGE)"
         + ("; wall-clock budget reached, remaining cells skipped" if budget.tripped else "")
     )
     return result(evaluations, len(distinct), rule, samples, F.violations(), exhaustive=False, cells=len(cells), cells_exhausted=n_ex, budget_tripped=budget.tripped)
